@@ -7,7 +7,7 @@ P == [
    join |-> ("a" :> "AND" @@ "b" :> "AND" @@ "c" :> "AND" @@ "d" :> "AND"),
    thr |-> ("a" :> 0 @@ "b" :> 0 @@ "c" :> 0 @@ "d" :> 0),
    tasks |-> ("a" :> <<"a.1">> @@ "b" :> <<"b.1">> @@ "c" :> <<"c.1">> @@ "d" :> <<"d.1">>),
-   beh |-> ("a.1" :> ("k" :> "ok" @@ "n" :> 0 @@ "target" :> "") @@ "b.1" :> ("k" :> "ok" @@ "n" :> 0 @@ "target" :> "") @@ "c.1" :> ("k" :> "ok" @@ "n" :> 0 @@ "target" :> "") @@ "d.1" :> ("k" :> "ok" @@ "n" :> 0 @@ "target" :> "")),
+   beh |-> ("a.1" :> ("k" :> "ok" @@ "n" :> 0 @@ "target" :> "" @@ "targets" :> <<"">>) @@ "b.1" :> ("k" :> "ok" @@ "n" :> 0 @@ "target" :> "" @@ "targets" :> <<"">>) @@ "c.1" :> ("k" :> "ok" @@ "n" :> 0 @@ "target" :> "" @@ "targets" :> <<"">>) @@ "d.1" :> ("k" :> "ok" @@ "n" :> 0 @@ "target" :> "" @@ "targets" :> <<"">>)),
    stageOf |-> ("a.1" :> "a" @@ "b.1" :> "b" @@ "c.1" :> "c" @@ "d.1" :> "d"),
    cof |-> ("a" :> FALSE @@ "b" :> FALSE @@ "c" :> FALSE @@ "d" :> FALSE),
    failp |-> ("a" :> TRUE @@ "b" :> TRUE @@ "c" :> TRUE @@ "d" :> TRUE),
